@@ -419,3 +419,150 @@ ASSUMPTIONS = ['does not decide the numeric look-ahead bound (window + '
                'the features the property excepts (sort, reverse, length, '
                'statistics, next-batches, unbatched rendering) may force']
 TRUSTED = ['python ast']
+
+
+# ------------------------------------------------------------------ R3
+# the numeric look-ahead bound of the window computation itself
+from ..flow import NORMAL as _NORMAL      # noqa: E402
+from ..flow import RAISE as _RAISE        # noqa: E402
+from ..flow import Interp as _Interp      # noqa: E402
+from ..flow import Outcome as _Outcome    # noqa: E402
+from ..zone import Zone as _Zone          # noqa: E402
+from ..zone import lin as _lin            # noqa: E402
+from ..zone import sub as _sub            # noqa: E402
+from . import c11 as _c11                 # noqa: E402
+
+
+class _PullDomain(_c11._WindowDomain):
+    """Window computation with a ghost variable N = (number of elements
+    pulled from a lazy sequence so far) - orphan.  A probe sequence[i] that
+    succeeds has pulled i+1 elements, one that fails -- and len() -- has
+    pulled all L of them."""
+
+    def __init__(self, fi, seqname, names, orphan):
+        super().__init__(fi, seqname, names)
+        self.orphan = orphan
+
+    def _raise_n(self, st, cand):
+        """states after N := max(N, cand)"""
+        outs = []
+        keep = st.assume_le0(_sub(cand, {'N': 1}))      # cand <= N
+        if not keep.bottom:
+            outs.append(keep)
+        grow = st.assume_le0(_sub({'N': 1, '': 1}, cand))  # N + 1 <= cand
+        if not grow.bottom:
+            g2 = grow.assign('N', cand)
+            g2.decisions = getattr(grow, 'decisions', ())
+            outs.append(g2)
+        return outs
+
+    def simple(self, stmt, st):
+        idx = self._probe(stmt)
+        if idx is not None:
+            f = _lin(idx, self.rename)
+            if f is None:
+                h = st.copy()
+                h.havoc = True
+                return [_Outcome(_NORMAL, h),
+                        _Outcome(_RAISE, h, 'IndexError', stmt)]
+            outs = []
+            for o in super().simple(stmt, st):
+                if o.kind == _NORMAL:
+                    cand = dict(f)
+                    cand[''] = cand.get('', 0) + 1
+                    cand = _sub(cand, {self.orphan: 1})
+                    for s2 in self._raise_n(o.state, cand):
+                        outs.append(_Outcome(_NORMAL, s2))
+                else:
+                    for s2 in self._raise_n(o.state,
+                                            {'L': 1, self.orphan: -1}):
+                        outs.append(_Outcome(_RAISE, s2, o.exc, o.node))
+            return outs
+        uses_len = any(isinstance(c, ast.Call) and norm(c.func) == 'len' and
+                       c.args and norm(c.args[0]) == self.seq
+                       for c in ast.walk(stmt))
+        outs = super().simple(stmt, st)
+        if not uses_len:
+            return outs
+        res = []
+        for o in outs:
+            for s2 in self._raise_n(o.state, {'L': 1, self.orphan: -1}):
+                res.append(_Outcome(o.kind, s2, o.exc, o.node))
+        return res
+
+
+def rule_lookahead(model):
+    r = RuleResult('C12.R3', 'the window computation pulls at most the end '
+                   'of the window it returns plus one look-ahead batch: on '
+                   'every path, elements pulled <= end + size + orphan '
+                   '(zone abstract interpretation with a ghost counter; a '
+                   'successful probe sequence[i] pulls i+1 elements, a '
+                   'failed one and len() pull the whole sequence)')
+    fi = model.func('DT_InSV', 'opt')
+    ps = fi.params()
+    if len(ps) != 5:
+        raise AnalysisError('opt: unexpected signature')
+    seq, orphan = ps[4], ps[3]
+    names = set(ps[:4])
+    for n in own_nodes(fi.node):
+        if isinstance(n, ast.Name) and isinstance(n.ctx, ast.Store):
+            names.add(n.id)
+    names.discard(seq)
+    vars_ = [''] + sorted(names) + ['L', 'N']
+    z = _Zone(vars_)
+    z.add('', 'L', -1)            # non-empty sequence
+    z.add('', orphan, 0)          # orphan >= 0
+    z.add('N', '', 0)             # nothing pulled yet: N = -orphan <= 0
+    z.decisions = ()
+    dom = _PullDomain(fi, seq, names, orphan)
+    it = _Interp(dom, max_states=400000)
+    it.run(fi.node, z)
+    if it.overflow:
+        raise AnalysisError('C12.R3: state budget exceeded')
+    if not dom.returns:
+        raise AnalysisError('opt: no return reached')
+    n_paths = 0
+    failing = []
+    undecided = []
+    seen = set()
+    for node, st in dom.returns:
+        if st.bottom:
+            continue
+        v = node.value
+        if not (isinstance(v, ast.Tuple) and len(v.elts) == 3):
+            raise AnalysisError('opt: return value is not a 3-tuple')
+        R = [_lin(e, dom.rename) for e in v.elts]
+        if any(x is None for x in R):
+            raise AnalysisError('opt: non-linear return value')
+        dec = getattr(st, 'decisions', ())
+        path = ' & '.join((t if b else f'not ({t})') for t, b in dec)
+        if (path, st.key()) in seen:
+            continue
+        seen.add((path, st.key()))
+        n_paths += 1
+        # N <= end + size   (N = pulled - orphan)
+        form = _sub(_sub({'N': 1}, R[1]), R[2])
+        ok = st.entails_le0(form)
+        r.instance(fi.where, f'path: {path}'[:150],
+                   'pulled <= end+size+orphan' if ok else 'NOT ESTABLISHED')
+        if not ok:
+            (undecided if st.havoc else failing).append((path, node, st))
+    if failing:
+        path, node, st = failing[0]
+        r.finding(fi.where, 'pulled <= end + size + orphan',
+                  f'on {len(failing)} path(s), e.g. [{path}], the window '
+                  'computation may pull more elements from a lazy sequence '
+                  'than the end of the returned window plus one look-ahead '
+                  'batch (size + orphan)', node=node, ctx=fi,
+                  path=st.trace)
+    elif undecided:
+        raise AnalysisError('C12.R3: look-ahead bound undecided after an '
+                            f'un-modelled update ({undecided[0][0][:80]})')
+    r.stats = {'paths': n_paths}
+    if n_paths < 4:
+        raise AnalysisError(f'C12.R3: only {n_paths} return paths analysed')
+    r.floor = 4
+    return r
+
+
+RULES = RULES + [_inl(rule_lookahead)]
